@@ -450,34 +450,21 @@ theorem toyGrammar_ok : GrammarOK toyGrammar where
 `Model/FilePiece.lean` and compared with the real parsers on every generated number) meet the hypotheses -/
 theorem integer_grammars_ok : GrammarOK gLong ∧ GrammarOK gULong := ⟨gLong_ok, gULong_ok⟩
 
-/-- Finding L in the model: kenlm's floating-point `ParseNumber` (converter + NaN test on the whole string handed
-to it) is *not* a function of the token: "NaN" alone parses, "NaN 1" (the same token followed by more of the
-window) throws.  So `GrammarOK.prefix_det` fails for it exactly on NaN tokens, and the window placement decides
-(known finding `nan-token-window-end`; replayed on the real code by the check's directed case). -/
-theorem nan_not_prefix_determined :
-    gFloat false [78, 97, 78] = some (nanCode, 3) ∧ gFloat false ([78, 97, 78] ++ 32 :: [49]) = none ∧
-    ¬ GrammarOK (gFloat false) := by
-  have h1 : gFloat false [78, 97, 78] = some (nanCode, 3) := by decide
-  have h2 : gFloat false ([78, 97, 78] ++ 32 :: [49]) = none := by decide
-  refine ⟨h1, h2, fun h => ?_⟩
-  have := h.prefix_det [78, 97, 78] 32 [49] (by decide) (by decide) (by decide) trivial
-  rw [h1, h2] at this
-  exact absurd this (by decide)
+/-- **the model's concrete grammars meet the grammar hypotheses on every token**: strtol / strtoul, and kenlm's
+floating-point `ParseNumber` with the NaN test on the characters the converter consumed (the repaired code; for
+today's test see `Old.nan_not_prefix_determined`). -/
+theorem concrete_grammar_ok : ∀ k, GrammarOK (grammar k) := grammar_ok
 
-/-- **the model's concrete grammars meet the grammar hypotheses**: strtol / strtoul on every token, kenlm's
-floating-point `ParseNumber` on every token except `NaN` and `nan` (on which it provably does not, see above). -/
-theorem concrete_grammar_ok : ∀ k, GrammarOKOn (goodTok k) (grammar k) := grammar_ok
-
-/-- **C18 for the concrete grammars**: over the same bytes, any two executions (any chunk oracles, buffer sizes,
-page sizes, backends, mmap failures) of a script whose `ReadFloat`/`ReadDouble` never meet a token `NaN`/`nan`
-produce the spec transcript, hence the same transcript. -/
+/-- **C18 for the concrete grammars, without any assumption on the grammar or the script**: over the same bytes,
+any two executions (any chunk oracles, buffer sizes, page sizes, backends, mmap failures) of any script produce
+the spec transcript, hence the same transcript. -/
 theorem transcript_fn_concrete (env₁ env₂ : Env) (hb : env₁.bytes = env₂.bytes)
     (hp₁ : 0 < env₁.cfg.page) (hH₁ : env₁.cfg.fixH = true) (hI₁ : env₁.cfg.fixI = true) (hF₁ : env₁.cfg.fixF = true)
     (hp₂ : 0 < env₂.cfg.page) (hH₂ : env₂.cfg.fixH = true) (hI₂ : env₂.cfg.fixI = true) (hF₂ : env₂.cfg.fixF = true)
-    (mb₁ mb₂ : Nat) (b₁ b₂ : Backend) (ops : List Op) (hgs : GoodScript goodTok grammar env₁.bytes ops 0) :
+    (mb₁ mb₂ : Nat) (b₁ b₂ : Backend) (ops : List Op) :
     transcript env₁ grammar ops (init env₁ mb₁ b₁) = specTranscript grammar env₁.bytes ops 0 ∧
     transcript env₁ grammar ops (init env₁ mb₁ b₁) = transcript env₂ grammar ops (init env₂ mb₂ b₂) :=
-  transcript_fn_on env₁ env₂ hb hp₁ hH₁ hI₁ hF₁ hp₂ hH₂ hI₂ hF₂ grammar goodTok grammar_ok mb₁ mb₂ b₁ b₂ ops hgs
+  transcript_fn env₁ env₂ hb hp₁ hH₁ hI₁ hF₁ hp₂ hH₂ hI₂ hF₂ grammar grammar_ok mb₁ mb₂ b₁ b₂ ops
 
 def env0 : Env := { cfg := { page := 4, fixH := true, fixI := true }, bytes := [97, 98, 32, 99, 100, 101, 102, 103, 104, 105, 106, 107, 108, 10],
                     orc := fun _ => 3 }
@@ -546,6 +533,34 @@ theorem Old.offset_after_mmap_fallback :
       [(.bytes [97, 98], 2), (.bytes [99, 100], 5), (.bytes [101, 102, 103, 104, 105, 106, 107, 108, 109, 110, 111, 112, 113], 13)] ∧
     specTranscript noGrammar envF.bytes [.readDelimited isSpace, .readDelimited isSpace, .readDelimited isSpace] 0 =
       [(.bytes [97, 98], 2), (.bytes [99, 100], 5), (.bytes [101, 102, 103, 104, 105, 106, 107, 108, 109, 110, 111, 112, 113], 19)] := by
+  decide
+
+/-- N: today's floating-point `ParseNumber` compares the *whole string handed to it* (everything up to the last
+space of the window) with "NaN": "NaN" alone parses, "NaN 1" (the same token with more of the window behind it)
+throws — the verdict depends on where the window ends.  So `GrammarOK.prefix_det` fails for it. -/
+theorem Old.nan_not_prefix_determined :
+    gFloatOld false [78, 97, 78] = some (nanCode, 3) ∧ gFloatOld false ([78, 97, 78] ++ 32 :: [49]) = none ∧
+    ¬ GrammarOK (gFloatOld false) := by
+  have h1 : gFloatOld false [78, 97, 78] = some (nanCode, 3) := by decide
+  have h2 : gFloatOld false ([78, 97, 78] ++ 32 :: [49]) = none := by decide
+  refine ⟨h1, h2, fun h => ?_⟩
+  have := h.prefix_det [78, 97, 78] 32 [49] (by decide) (by decide) (by decide) trivial
+  rw [h1, h2] at this
+  exact absurd this (by decide)
+
+/-- the same input "xxxxx NaN 1\n" through a pipe (window 8 bytes, page 4), `ReadDelimited` then `ReadFloat`: with
+1-byte reads the window ends right after "NaN " and today's code returns NaN; with full reads it throws.  Same
+bytes, two window positions, two verdicts — with all three window repairs in.  The repaired test gives NaN both times. -/
+def envN (orc : Nat → Nat) : Env :=
+  { cfg := { page := 4 }, bytes := [120, 120, 120, 120, 120, 32, 78, 97, 78, 32, 49, 10], orc := orc }
+
+theorem Old.nan_depends_on_window :
+    transcript (envN fun _ => 1) grammarOld [.readDelimited isSpace, .readNumber .float] (init (envN fun _ => 1) 1 .pipe) =
+      [(.bytes [120, 120, 120, 120, 120], 5), (.num nanCode, 9)] ∧
+    transcript (envN fun _ => 1000) grammarOld [.readDelimited isSpace, .readNumber .float] (init (envN fun _ => 1000) 1 .pipe) =
+      [(.bytes [120, 120, 120, 120, 120], 5), (.parseErr [78, 97, 78], 6)] ∧
+    transcript (envN fun _ => 1) grammar [.readDelimited isSpace, .readNumber .float] (init (envN fun _ => 1) 1 .pipe) =
+      transcript (envN fun _ => 1000) grammar [.readDelimited isSpace, .readNumber .float] (init (envN fun _ => 1000) 1 .pipe) := by
   decide
 
 /-- **negation of `op_transparent` / `transcript_fn` for today's code**: with any one repair missing there are
